@@ -1,6 +1,6 @@
 (* C15 - property theorems (statements only; proofs live in theories/). *)
 From Coq Require Import ZArith List.
-From Shampoo Require Import SplitRecovery SplitRecoveryProofs SplitChecker SplitMinimal.
+From Shampoo Require Import SplitRecovery SplitRecoveryProofs SplitChecker SplitMinimal SplitCheckerStrict.
 Import ListNotations.
 Open Scope Z_scope.
 
@@ -10,11 +10,12 @@ Theorem C15_split_partitions_in_order :
 Proof. exact rec_chain. Qed.
 Print Assumptions C15_split_partitions_in_order.
 
-(* each piece is a slab k x shape[d+1:] aligned to prod shape[d+1:], inside one index of the leading dims *)
+(* each piece is a GENUINE slab k x shape[d+1:] of some existing level d (strict_slab: aligned to prod shape[d+1:], inside
+   one index of the leading dims; a 1-D piece never crosses a row of the last dimension) *)
 Theorem C15_split_pieces_are_slabs :
   forall sh, allpos sh -> forall off s e, s <= e -> in_cell sh s e ->
-  Forall (fun p => slab sh (abs_start off s p) (abs_start off s p + plen p) (pshape p)) (rec sh off s e).
-Proof. exact rec_slabs. Qed.
+  Forall (fun p => strict_slab sh (abs_start off s p) (abs_start off s p + plen p) (pshape p)) (rec sh off s e).
+Proof. exact rec_strict_slabs. Qed.
 Print Assumptions C15_split_pieces_are_slabs.
 
 Theorem C15_slab_numel : forall sh a b shp, allpos sh -> slab sh a b shp -> prodl shp = b - a.
@@ -44,12 +45,21 @@ Theorem C15_split_minimal :
 Proof. exact split_minimal. Qed.
 Print Assumptions C15_split_minimal.
 
-(* `length impl = length (rec shape 0 s e)` means "has the minimal number of pieces" by C15_split_minimal
-   (SplitMinimal.checked_output_minimal states the combination) *)
+(* the certified checker used on the implementation's output: accepted => ordered partition into genuine slabs with the
+   minimal number of pieces *)
 Theorem C15_checker_sound :
-  forall shape s e impl, C15_checkb shape s e impl = true ->
+  forall shape s e impl, C15_checkb_strict shape s e impl = true ->
   chain impl 0 (e - s)
-  /\ Forall (fun p => slab shape (s + poff p) (s + poff p + plen p) (pshape p)) impl
+  /\ Forall (fun p => strict_slab shape (s + poff p) (s + poff p + plen p) (pshape p)) impl
   /\ length impl = length (rec shape 0 s e).
-Proof. exact C15_checkb_sound. Qed.
+Proof. exact C15_checkb_strict_sound. Qed.
 Print Assumptions C15_checker_sound.
+
+Theorem C15_checker_minimal :
+  forall shape s e impl, allpos shape -> 0 <= s -> s <= e -> e <= prodl shape ->
+  C15_checkb_strict shape s e impl = true ->
+  forall l, chain l 0 (e - s) ->
+    Forall (fun p => strict_slab shape (s + poff p) (s + poff p + plen p) (pshape p)) l ->
+    (length impl <= length l)%nat.
+Proof. exact C15_checkb_strict_minimal. Qed.
+Print Assumptions C15_checker_minimal.
